@@ -786,7 +786,34 @@ func genGeom(t *rapid.T, depth int) (orb.Geometry, string) {
 		if y1 > maxCoord {
 			y1 = maxCoord
 		}
-		return orb.Bound{Min: orb.Point{float64(x0), float64(y0)}, Max: orb.Point{float64(x1), float64(y1)}}, "Bound"
+		b := orb.Bound{Min: orb.Point{float64(x0), float64(y0)}, Max: orb.Point{float64(x1), float64(y1)}}
+		// corner cases of the Bound -> polygon helper the encoder relies on (outside "positive area", see assumptions):
+		// a bound flat on exactly one axis, and a bound with Min > Max on one or both axes. The expected ring is
+		// written out corner by corner by the harness (gen.BoundPolygon); it is the first ring of its feature,
+		// so its winding does not enter the grouping.
+		switch rapid.IntRange(0, 11).Draw(t, "bdeg") {
+		case 0:
+			b.Max[0] = b.Min[0]
+			return b, "Bound(zero width)"
+		case 1:
+			// height 0 makes the fourth corner equal the first: the ring [a,b,b,a,a] belongs to the
+			// trailing-duplicate family (known finding), generated only on a tree that round-trips it
+			if !trailingDupWorks() {
+				if _, listed := kf.Get("C03", ringKey); listed {
+					stats.Excluded(ringKey)
+				}
+				return b, "Bound"
+			}
+			b.Max[1] = b.Min[1]
+			return b, "Bound(zero height)"
+		case 2:
+			b.Min[0], b.Max[0] = b.Max[0], b.Min[0]
+			return b, "Bound(Min > Max on x)"
+		case 3:
+			b.Min, b.Max = b.Max, b.Min
+			return b, "Bound(Min > Max on both axes)"
+		}
+		return b, "Bound"
 	default:
 		// geometry collection: only one-member collections are outside the known finding
 		nm := rapid.IntRange(0, 3).Draw(t, "members")
@@ -1134,6 +1161,7 @@ func assumptions() {
 		stats.Assume("the vertex before the closing vertex of a ring differs from its first vertex: on this tree a ring [a,b,c,a,a] decodes as [a,b,c,a] (decodePolygon only appends the closing vertex when the ring is not already closed); DESIGN.md restricts rings to pairwise distinct vertices, this check additionally admits repeated interior vertices")
 	}
 	stats.Assume("the first ring of a polygon feature is counter-clockwise; unclosed input rings and windings that contradict the input grouping are generated as extra classes, expected value = rings closed and regrouped by exact shoelace sign")
+	stats.Assume("bounds: positive area by default; extra classes outside the stated domain: flat on exactly one axis, and Min > Max on one or both axes; expected value = the five corners min,min / max,min / max,max / min,max / min,min written out by the harness, kept as given because the first ring of a feature is never regrouped")
 	stats.Assume("ids are absent or non-negative integers held by a Go integer kind, or by float32 (<= 2^24) / float64 (<= 2^53) with an integral value")
 	stats.Assume("property values: string, bool, all Go integer and float kinds (finite), nil, []interface{} and map[string]interface{} nested to depth 2; decoded numbers are compared with == on float64 (-0 equals +0), nil/slices/maps with their encoding/json text")
 	stats.Assume("members of a geometry collection are non-nil and are not collections themselves; collections with 0 or >= 2 members are the known finding " + knownKey + " and are excluded from random generation")
